@@ -78,6 +78,10 @@ class Hand:
             if type(o).__name__ == 'ChipsPushing':
                 for i, a in enumerate(o.amounts):
                     self.collected[i] += a
+        if n == 2:
+            # sites list the small blind (heads-up: the button, engine seat 1) before the big blind; the engine posts seat 0 first
+            blinds = sorted((a for a in self.streets[0] if a[0] == 'blind'), key=lambda a: -a[1])
+            self.streets[0] = blinds + [a for a in self.streets[0] if a[0] != 'blind']
         bl = [a[2] for a in self.streets[0] if a[0] == 'blind']
         self.sb, self.bb = (min(bl), max(bl)) if len(bl) >= 2 else (bl[0], bl[0])
         self.by_seat = sorted(range(n), key=lambda i: seats[i])
